@@ -75,8 +75,14 @@ def run_solve_shard(exe, items, workdir, shard, per_instance_timeout, threads, c
     results = {}
     skip = 0
     attempt = 0
+    kills = 0
     env = dict(os.environ, RAYON_NUM_THREADS=str(threads), RUST_BACKTRACE="0")
     while skip < len(items):
+        if kills >= 8:
+            # the implementation hangs on instance after instance (each costs a full timeout): the eight
+            # timeouts are reported, the rest of this shard is not run and not judged
+            results.setdefault("__not_run__", []).extend(it["name"] for it in items[skip:])
+            break
         outp = os.path.join(workdir, "out_%d_%d.ndjson" % (shard, attempt))
         attempt += 1
         p = subprocess.Popen([exe] + list(cmd) + ["--in", inp, "--out", outp, "--skip", str(skip)],
@@ -101,6 +107,7 @@ def run_solve_shard(exe, items, workdir, shard, per_instance_timeout, threads, c
                 p.kill()
                 p.wait()
                 killed = True
+                kills += 1
                 break
         evs = common.read_ndjson(outp)
         cur = None
@@ -139,8 +146,13 @@ def solve_all(instances, profile, per_instance_timeout=60, shards=None, threads=
     with ThreadPoolExecutor(max_workers=shards) as ex:
         futs = [ex.submit(run_solve_shard, exe, part, workdir, k, per_instance_timeout, threads, cmd)
                 for k, part in enumerate(parts) if part]
+        not_run = []
         for f in futs:
-            results.update(f.result())
+            r = f.result()
+            not_run.extend(r.pop("__not_run__", []))
+            results.update(r)
+        if not_run:
+            results["__not_run__"] = not_run
     try:
         os.rmdir(workdir)
     except OSError:
@@ -152,7 +164,10 @@ def build_trace(instances, results, profile):
     """One load event per instance followed by what was observed."""
     trace = []
     meta = []  # per instance: dict(name, first, last, status, wall_ms, nsteps)
+    not_run = set(results.get("__not_run__", []))
     for I in instances:
+        if I["name"] in not_run:
+            continue
         evs = results.get(I["name"], [])
         trace.append({"ev": "load", "name": I["name"], "I": gen.spec_view(I), "dec": gen.decoupled(I)})
         li = len(trace)
